@@ -29,6 +29,7 @@ type lProc struct {
 	ns, cmd, wd, log, desc string
 	rp, lp                 string // encoded probe
 	vars                   [][2]string
+	deps                   []string // process_completed dependencies (set by the scale scenarios, not part of the op encoding)
 }
 
 func parseLVars(s string) ([][2]string, bool) {
@@ -204,6 +205,13 @@ func ProjectYAML(g [][2]string, procs []*lProc) ([]byte, bool) {
 		}
 		if lp != nil {
 			m["liveness_probe"] = lp
+		}
+		if len(p.deps) > 0 {
+			dm := map[string]interface{}{}
+			for _, d := range p.deps {
+				dm[d] = map[string]interface{}{"condition": "process_completed"}
+			}
+			m["depends_on"] = dm
 		}
 		if len(p.vars) > 0 {
 			vm := map[string]interface{}{}
